@@ -235,6 +235,7 @@ class Replay:
         self.nprior = 0
         try:
             self.evmgr = self.m['em'].EventMgr(root=self.root)
+            self._notify = self.m['em'].EventMgr._cache_notify     # the unwrapped function
             self.cache = self.evmgr.tm_env.cache_dir
             os.makedirs(self.cache, exist_ok=True)
             self.host = self.evmgr._hostname        # pylint: disable=protected-access
@@ -330,6 +331,12 @@ class Replay:
         zku = self.m['zkutils']
         ev, x = e[0], e[1:]
         self.quiet += 1
+        # kazoo runs watch callbacks one after the other on its handler thread: a
+        # change made while a callback (the sync) is running must not start a nested
+        # one.  While the history applies an event no watch fires; in run() mode the
+        # next Sync of the history stands for the queued delivery.
+        watches = (self.store.child_watches, self.store.data_watches)
+        self.store.child_watches, self.store.data_watches = {}, {}
         try:
             if ev == 'Place':
                 path = '%s/%s' % (self.ppath, real_name(x[0]))
@@ -357,11 +364,12 @@ class Replay:
             elif ev == 'Notify':
                 if bool(x[0]) == os.path.exists(os.path.join(self.cache, self.m['em'].READY_FILE)):
                     return False                  # no change of state: not an event of the model
-                self.evmgr._cache_notify(bool(x[0]))     # pylint: disable=protected-access
+                self._notify(self.evmgr, bool(x[0]))
             else:
                 raise tlc.MachineryError('unknown environment event %r' % (e,))
             return True
         finally:
+            self.store.child_watches, self.store.data_watches = watches
             self.quiet -= 1
 
     def _node_ctime(self, a, new, near):
@@ -534,7 +542,7 @@ class Replay:
         em_mod = self.m['em']
         cls = em_mod.EventMgr
         real_sync = cls._synchronize            # pylint: disable=protected-access
-        real_notify = cls._cache_notify         # pylint: disable=protected-access
+        real_notify = self._notify
         ready = os.path.join(self.cache, em_mod.READY_FILE)
         rp = self
 
